@@ -110,11 +110,9 @@ Section Goulard.
     sumnr npadir (fun ip => if wt_def ij ip then wt_val ij ip * get (ge_of icov) ij ip * get (g_gg c) ij ip else 0).
   Definition sum2 (icov ij : nat) : Q :=
     sumnr npadir (fun ip => if wt_def ij ip then wt_val ij ip * get (ge_of icov) ij ip * get (ge_of icov) ij ip else 0).
-  Definition alphak (icov ij : nat) : Q := Qred (1 / sum2 icov ij).
+  (* "alphak = (sum2 != 0.) ? 1. / sum2 : 0." : a pair of variables without any weighted lag gets a zero cross-sill *)
+  Definition alphak (icov ij : nat) : Q := if qeqb (sum2 icov ij) 0 then 0 else Qred (1 / sum2 icov ij).
   Definition aic (icov ij : nat) : Q := Qred (sum1 icov ij * alphak icov ij).
-  (* the C++ divides by sum2 without a test: a zero denominator (no weighted lag for this pair) is outside the model *)
-  Definition degenerate : bool :=
-    existsb (fun icov => existsb (fun ij => qeqb (sum2 icov ij) 0) (seq 0 nvs2)) (seq 0 (g_ncova c)).
 
   (* mp = sum over structures of sill * ge                                  AModelOptimSills.cpp:867-878 *)
   Definition mp_init (sill : list mat) : mat :=
